@@ -35,6 +35,7 @@ type outcome struct {
 	Blen   int    `json:"blen"`
 	Site   string `json:"site"` // innermost frame inside the repository: file.go:Func
 	Top    string `json:"top"`  // innermost non-runtime frame (may be a dependency)
+	Chain  string `json:"chain"` // timeouts: repository frames of the handler goroutine, innermost first, joined by "<"
 	Msg    string `json:"msg"`
 	MS     int    `json:"ms"`
 	URL    string `json:"url"`
@@ -335,15 +336,15 @@ func repoChain(blk string) (chain []string, top string) {
 
 func (c *child) timeout(why string, onlyFast bool) {
 	// the call site of a handler that does not return: the innermost repository frame that is on the stack in
-	// three dumps taken 25 ms apart (a loop calling small helpers is identified by the looping function)
-	var common []string
+	// six dumps taken 12 ms apart (a loop calling small helpers is identified by the looping function)
+	var common, first []string
 	top := ""
-	for i := 0; i < 3; i++ {
+	for i := 0; i < 6; i++ {
 		buf := make([]byte, 1<<20)
 		n := runtime.Stack(buf, true)
 		chain, t := repoChain(goroutineBlock(string(buf[:n]), "c08.(*child).serve"))
 		if i == 0 {
-			common, top = chain, t
+			common, first, top = chain, chain, t
 		} else {
 			k := 0
 			for k < len(common) && k < len(chain) && common[len(common)-1-k] == chain[len(chain)-1-k] {
@@ -351,7 +352,7 @@ func (c *child) timeout(why string, onlyFast bool) {
 			}
 			common = common[len(common)-k:]
 		}
-		time.Sleep(25 * time.Millisecond)
+		time.Sleep(12 * time.Millisecond)
 	}
 	site := ""
 	if len(common) > 0 {
@@ -362,6 +363,7 @@ func (c *child) timeout(why string, onlyFast bool) {
 	}
 	o := c.cur
 	o.Kind, o.Site, o.Top, o.Msg = "timeout", site, top, why
+	o.Chain = strings.Join(first[:min(len(first), 5)], "<")
 	o.MS = int(c.bound / time.Millisecond)
 	c.emit(o)
 	c.out.Flush()
